@@ -828,7 +828,9 @@ func (e *connectWireError) MarshalJSON() ([]byte, error) {
 	}
 	if connectErr, ok := asError((*Error)(e)); ok {
 		wire.Code = connectErr.Code().String()
-		wire.Message = connectErr.Message()
+		// Protobuf strings must be valid UTF-8; error text that quotes undecodable
+		// input may not be.
+		wire.Message = strings.ToValidUTF8(connectErr.Message(), "\uFFFD")
 		details, err := connectErr.detailsAsAny()
 		if err != nil {
 			return nil, err
